@@ -427,15 +427,15 @@ impl CallStack {
     ) -> Result<(), StoryError> {
         self.threads.clear();
 
-        let j_threads = j_obj.get("threads").unwrap();
+        let j_threads = json_read::get(j_obj, "threads")?;
 
-        for j_thread_tok in j_threads.as_array().unwrap().iter() {
-            let j_thread_obj = j_thread_tok.as_object().unwrap();
+        for j_thread_tok in json_read::as_array(j_threads)?.iter() {
+            let j_thread_obj = json_read::as_object(j_thread_tok)?;
             let thread = Thread::from_json(main_content_container, j_thread_obj)?;
             self.threads.push(thread);
         }
 
-        self.thread_counter = j_obj.get("threadCounter").unwrap().as_i64().unwrap() as usize;
+        self.thread_counter = json_read::as_usize(json_read::get(j_obj, "threadCounter")?)?;
         self.start_of_root = Pointer::start_of(main_content_container.clone()).clone();
 
         Ok(())
